@@ -35,6 +35,7 @@ EXPLANATION += (" R-C14-9: the validity tests of a binning do not use is_monoton
 EXPLANATION += (' R-C14-10: no absolute tolerance on loads, class widths, overlaps or cycle counts in the collective and histogram modules (np.isclose / allclose with an absolute part, rounding to fixed digits, comparison with or addition of a small fixed number); zero instances expected, built-in example with one instance of each kind.')
 EXPLANATION += (' R-C14-11 (shared with R-C13-9): the two results of a broadcast in scale / shift stay paired - neither is re-ordered on its own before they are combined row by row.')
 EXPLANATION += (' R-C14-12: class edges reach np.histogram2d as an explicit pair of edge arrays; a caller\'s sequence handed over as it is would be read as a pair of class counts when it has two entries (built-in example).')
+EXPLANATION += (" R-C14-13: each axis of the range/mean histogram is labelled with the class edges np.histogram2d returned for that axis (no edge array thrown away, level i of MultiIndex.from_product built from edge array i). R-C14-14: an axis / level argument naming one index level is not used as the right operand of `in` / `not in` unless it was wrapped into a list first (substring test for a string).")
 ASSUMPTIONS = ["DataFrame.max(axis=1)/min(axis=1) over the two columns is the row-wise max/min", "range >= 0",
                "pandas reports an index of a single element as is_monotonic_increasing and is_monotonic_decreasing"]
 
@@ -165,6 +166,8 @@ def run(ctx):
     ctx.attempt(_r10)
     ctx.attempt(_r11)
     ctx.attempt(_r12)
+    ctx.attempt(_r13)
+    ctx.attempt(_r14)
 
 
 def ambiguous_2d_bins(outer_fn):
@@ -187,6 +190,121 @@ def ambiguous_2d_bins(outer_fn):
                     continue
             out.append((c, norm_text(b)))
     return out
+
+
+def axis_edge_mismatches(fn_node):
+    """np.histogram2d / np.histogramdd return the counts and ONE edge array per axis.  [(node, message)] where an edge array is
+    thrown away, or the class index of axis i of the result (pd.MultiIndex.from_product([...])) is not built from edge array i"""
+    from ..astutil import inline_single_defs
+    out = []
+    for st in ast.walk(fn_node):
+        if not (isinstance(st, ast.Assign) and isinstance(st.value, ast.Call) and (call_name(st.value) or "").endswith("histogram2d") and
+                len(st.targets) == 1 and isinstance(st.targets[0], ast.Tuple) and len(st.targets[0].elts) == 3):
+            continue
+        edges = [t.id if isinstance(t, ast.Name) else None for t in st.targets[0].elts[1:]]
+        scope = st
+        while not isinstance(scope, ast.FunctionDef):
+            scope = scope._parent
+        for i, e in enumerate(edges):
+            used = e is not None and any(isinstance(n, ast.Name) and n.id == e and isinstance(n.ctx, ast.Load) for n in ast.walk(scope))
+            if not used:
+                out.append((st, "the class edges numpy returns for axis %d are not used" % i))
+        for c in ast.walk(scope):
+            if isinstance(c, ast.Call) and (call_name(c) or "").endswith("MultiIndex.from_product") and c.args and \
+                    isinstance(c.args[0], (ast.List, ast.Tuple)) and len(c.args[0].elts) == 2:
+                for i, el in enumerate(c.args[0].elts):
+                    full = inline_single_defs(scope, el, depth=4)
+                    names = {n.id for n in ast.walk(full) if isinstance(n, ast.Name)}
+                    if edges[i] is not None and edges[i] not in names:
+                        out.append((c, "level %d of the result is labelled with %s, not with the edges returned for axis %d (%s)"
+                                    % (i, norm_text(el)[:40], i, edges[i])))
+                    other = edges[1 - i]
+                    if other is not None and other in names and edges[i] not in names:
+                        pass
+    seen, res = set(), []
+    for n, m in out:
+        if (id(n), m) not in seen:
+            seen.add((id(n), m))
+            res.append((n, m))
+    return res
+
+
+def _r13(ctx):
+    """R-C14-13: the range/mean histogram labels each axis with the class edges numpy returned for THAT axis.  With a class count
+    instead of explicit edges the two axes get different edges (ranges and means span different intervals); labelling both
+    levels with the range edges keeps every count but puts it into a mean class the cycles do not lie in."""
+    prog = ctx.prog
+    ctx.rule("R-C14-13", floor=1, what="each axis of the range/mean histogram is labelled with the edges returned for that axis")
+    ex = ast.parse("def f(g, bins):\n    h, e, _ = np.histogram2d(g.a, g.b, bins)\n    k = pd.IntervalIndex.from_breaks(e)\n"
+                   "    return pd.Series(h.ravel(), index=pd.MultiIndex.from_product([k, k]))\n")
+    from ..frontend import set_parents
+    if len(axis_edge_mismatches(set_parents(ex).body[0])) != 2:
+        raise AnalysisError("R-C14-13 built-in example not matched")
+    n = 0
+    for key, fi in sorted(prog.functions.items()):
+        if not fi.module.name.startswith("pylife.stress.collective") or fi.parent is not None:
+            continue
+        if not any((call_name(c_) or "").endswith("histogram2d") for c_ in ast.walk(fi.node) if isinstance(c_, ast.Call)):
+            continue
+        n += 1
+        bad = axis_edge_mismatches(fi.node)
+        for node, msg in bad:
+            ctx.violated(fi, node, "%s: %s - the counts stay, but they are labelled with classes the cycles do not lie in (upper, lower, R "
+                         "of the histogram follow the labels)" % (fi.name, msg), text="axis edges in %s: %s" % (fi.name, msg[:50]))
+        if not bad:
+            ctx.holds(fi, fi.node, "%s: both edge arrays of np.histogram2d label their own axis" % fi.name)
+    if n < 1:
+        raise AnalysisError("no two-dimensional histogram found in the collective modules")
+
+
+def label_membership_in_string(fn_node, params):
+    """`x in p` / `x not in p` where p is a parameter that the same function (or its docstring default) treats as ONE label: for a
+    string p this is a substring test.  Reported when p is not wrapped ([p], (p,), {p}) and nothing normalises p to a list first:
+    [(node, param)]"""
+    out = []
+    normalised = set()
+    for st in ast.walk(fn_node):
+        if isinstance(st, ast.Assign) and len(st.targets) == 1 and isinstance(st.targets[0], ast.Name) and st.targets[0].id in params:
+            v = st.value
+            if isinstance(v, (ast.List, ast.Tuple, ast.Set)) or (isinstance(v, ast.Call) and (call_name(v) or "") in
+                                                                    ("list", "tuple", "set", "np.atleast_1d", "pd.Index", "np.ravel")) or \
+                    isinstance(v, ast.IfExp):
+                normalised.add(st.targets[0].id)
+    for n in ast.walk(fn_node):
+        if isinstance(n, ast.Compare) and len(n.ops) == 1 and isinstance(n.ops[0], (ast.In, ast.NotIn)):
+            r = n.comparators[0]
+            if isinstance(r, ast.Name) and r.id in params and r.id not in normalised:
+                out.append((n, r.id))
+    return out
+
+
+def _r14(ctx):
+    """R-C14-14: an `axis` / level argument that names ONE index level is compared with the level names as a label, never by
+    `name in axis`: for a string that is a substring test - a level called 'block' disappears from the grouping when the axis
+    is 'block_cycle', and the histograms of all blocks are merged."""
+    prog = ctx.prog
+    ctx.rule("R-C14-14", floor=1, what="index level names are not tested for membership in a bare (string) axis argument")
+    from ..frontend import set_parents
+    ex = set_parents(ast.parse("def f(self, axis):\n    return [lv for lv in self._obj.index.names if lv not in axis], [lv for lv in self._obj.index.names if lv not in [axis]]\n")).body[0]
+    if len(label_membership_in_string(ex, {"axis"})) != 1:
+        raise AnalysisError("R-C14-14 built-in example not matched")
+    n = 0
+    for key, fi in sorted(prog.functions.items()):
+        if not fi.module.name.startswith("pylife.stress.collective") or fi.parent is not None:
+            continue
+        params = {p for p in fi.params if p in ("axis", "level", "levels", "droplevel", "name")}
+        if not params:
+            continue
+        n += 1
+        bad = label_membership_in_string(fi.node, params)
+        for node, p in bad:
+            ctx.violated(fi, node, "%s: `%s` tests a level name for membership in the argument `%s` itself; `%s` is documented as one "
+                         "level name, and for a string `in` is a SUBSTRING test: every level whose name is contained in the axis name "
+                         "drops out of the grouping" % (fi.name, norm_text(node), p, p), text="membership in bare %s in %s" % (p, fi.name))
+        if not bad:
+            ctx.holds(fi, fi.node, "%s: %s compared as a label" % (fi.name, ", ".join(sorted(params))))
+    if n < 1:
+        raise AnalysisError("no function with an axis / level argument found in the collective modules")
 
 
 def _r12(ctx):
